@@ -1466,3 +1466,29 @@ Section Checked.
       rewrite map_inserter_rejects in E by auto; discriminate.
   Qed.
 End Checked.
+
+(* ------------------------------------------------------------------ *)
+(** * State-level statements *)
+Definition no_reserved_names (ct : ctable) : Prop :=
+  forall c k, lookup_cls ct c = Some k -> lookup_attr k A_INITIALIZING = None.
+
+Theorem step_preserves_TS ct roots o s :
+  no_reserved_names ct -> op_plain o ->
+  TS ct (heap s) -> TS ct (heap (snd (step ct roots o s))) /\ ext (heap s) (heap (snd (step ct roots o s))).
+Proof.
+  intros Hr Hp T. destruct (step_pres ct Hr roots o Hp s I T) as [E [T' _]]. auto.
+Qed.
+
+(* tables all of whose annotations are simple: the restricted invariant is the whole invariant *)
+Definition all_simple (ct : ctable) : Prop :=
+  forall c k sp, lookup_cls ct c = Some k -> In sp (c_attrs k) -> simple (a_ty sp) = true.
+
+Lemma lookup_attr_in k a sp : lookup_attr k a = Some sp -> In sp (c_attrs k).
+Proof. unfold lookup_attr. intro H. apply find_some in H. tauto. Qed.
+
+Lemma TS_all_simple ct s : all_simple ct -> (TypeInv ct s <-> TS ct (heap s)).
+Proof.
+  intro Ha. unfold TypeInv, TS, TInvP, dict_ok. split; intros H l c d N k a v sp Hk Hi Hl Hs.
+  - eapply H; eauto.
+  - eapply H; eauto. eapply Ha; eauto. eapply lookup_attr_in; eauto.
+Qed.
